@@ -38,7 +38,9 @@ def run(ctx: Context) -> None:
         for c in snd:
             alts = [norm(a).replace("await", "") for a in ctx.prov.expand(c.args[1], sd, c)] if len(c.args) > 1 else []
             want = "data[:min(len(data),self._wait_for_outgoing_flow(request,stream_id))]"
-            ok = bool(alts) and all(a.replace("__loop__data", "data") == want for a in alts) and norm(c.args[0]) == "stream_id"
+            # a slice is bounded by its upper index whether or not len(data) is folded into it
+            wants = (want, "data[:self._wait_for_outgoing_flow(request,stream_id)]")
+            ok = bool(alts) and all(a.replace("__loop__data", "data") in wants for a in alts) and norm(c.args[0]) == "stream_id"
             rep.ob("C13.R1", fkey(tree, sd, "bounded-chunk"), ok, where(sd, c), f"send_data(stream_id, {alts})" + ("" if ok else f" - must be {want}: more than the window / frame size may be sent"))
         rets = [r for r in own_nodes(wf.node) if isinstance(r, ast.Return) and r.value is not None]
         ralts = sorted({norm(a) for r in rets for a in ctx.prov.expand(r.value, wf, r)})
